@@ -252,6 +252,7 @@ func genChan(g *simrt.Rng, e *Env, nCli, maxMsg, maxSize int, ends []int) ChanPl
 		return c
 	}
 	twoC, twoS := g.Bool(0.15), g.Bool(0.15)
+	c.CloseRace = twoC && g.Bool(0.5)
 	c.C2S = genMsgs(g, 1+g.IntN(maxMsg), w, maxSize, twoC, true)
 	c.S2C = genMsgs(g, g.IntN(maxMsg+1), w, maxSize, twoS, false)
 	if (c.End == EndClientClose || c.End == EndServerClose) && g.Bool(0.6) {
